@@ -7,6 +7,7 @@ import (
 	"fmt"
 	"go/constant"
 	"go/token"
+	"go/types"
 	"os"
 	"sort"
 	"strings"
@@ -141,10 +142,26 @@ func (w *Walker) walk(fr *Frame, visit func(fr *Frame)) {
 		case "closure":
 			nfr.MC = e.Site.(*ssa.MakeClosure)
 		case "dynamic":
-			if e.Callee.Parent() != nil {
+			if par := e.Callee.Parent(); par != nil && par.Synthetic != "package initializer" {
 				continue // anonymous functions are entered through their creation site
 			}
+			if strings.Contains(e.Callee.Synthetic, "bound method wrapper") {
+				continue // a method value (x.m): entered where it is created, with x bound
+			}
+			// (a function literal of a package-level table - map[K]func… - has the package
+			// initializer as its parent and captures nothing: it is entered at the call)
 			nfr.Call = e.Site.(ssa.CallInstruction)
+			// a call through a dispatch table reaches exactly the table's entries, each under
+			// the assumption that the key equals the constant it is stored under
+			if key, entries := w.cx.tableDispatch(nfr.Call); entries != nil {
+				ks, in := entries[e.Callee]
+				if !in {
+					continue
+				}
+				if len(ks) == 1 {
+					nfr.Assume = &assumption{key: key, val: ks[0]}
+				}
+			}
 		default:
 			nfr.Call = e.Site.(ssa.CallInstruction)
 		}
@@ -417,7 +434,11 @@ func coExecuted(a, b *Event) bool {
 	if !mustBelow(ca, i, a) || !mustBelow(cb, i, b) {
 		return false
 	}
-	return mutualMust(sa, sb)
+	as, consistent := assumptionsBelow(ca[i-1].Fn, ca[i:], cb[i:])
+	if !consistent {
+		return false // reached through different entries of one dispatch table
+	}
+	return withAssumptions(as, func() bool { return mutualMust(sa, sb) })
 }
 
 func siteOf(chain []*Frame, i int, e *Event) ssa.Instruction {
@@ -1319,4 +1340,302 @@ func mustBelowSite(ev *Event, cf *Frame) bool {
 		site = f.Call
 	}
 	return true
+}
+
+// tableDispatch: for a call m[key](…) (or f, ok := m[key]; f(…)) where m is a
+// package-level map whose entries are set once in the package initializer, the key
+// value and, per stored function, the constant keys it is stored under. nil entries
+// when the call is not of that form or the table is not fully understood.
+func (cx *Ctx) tableDispatch(ci ssa.CallInstruction) (ssa.Value, map[*ssa.Function][]string) {
+	if cx.tables == nil {
+		cx.tables = map[ssa.CallInstruction]*tableInfo{}
+	}
+	if t, ok := cx.tables[ci]; ok {
+		if t == nil {
+			return nil, nil
+		}
+		return t.key, t.entries
+	}
+	cx.tables[ci] = nil
+	v := ci.Common().Value
+	if ex, ok := v.(*ssa.Extract); ok {
+		v = ex.Tuple
+	}
+	lk, ok := v.(*ssa.Lookup)
+	if !ok {
+		return nil, nil
+	}
+	ld, ok := lk.X.(*ssa.UnOp)
+	if !ok || ld.Op != token.MUL {
+		return nil, nil
+	}
+	g, ok := ld.X.(*ssa.Global)
+	if !ok || g.Pkg == nil {
+		return nil, nil
+	}
+	initFn := g.Pkg.Func("init")
+	if initFn == nil || initFn.Blocks == nil {
+		return nil, nil
+	}
+	// the map value stored into g
+	var m ssa.Value
+	nStores := 0
+	for _, b := range initFn.Blocks {
+		for _, ins := range b.Instrs {
+			if st, ok := ins.(*ssa.Store); ok && st.Addr == g {
+				m = st.Val
+				nStores++
+			}
+		}
+	}
+	if nStores != 1 || m == nil {
+		return nil, nil
+	}
+	// no other function may write the table
+	for _, f := range cx.P.AllFuncs {
+		if f == initFn || f.Blocks == nil || f.Pkg != g.Pkg {
+			continue
+		}
+		for _, b := range f.Blocks {
+			for _, ins := range b.Instrs {
+				switch y := ins.(type) {
+				case *ssa.Store:
+					if y.Addr == g {
+						return nil, nil
+					}
+				case *ssa.MapUpdate:
+					if l, ok := y.Map.(*ssa.UnOp); ok && l.X == g {
+						return nil, nil
+					}
+				}
+			}
+		}
+	}
+	entries := map[*ssa.Function][]string{}
+	for _, b := range initFn.Blocks {
+		for _, ins := range b.Instrs {
+			mu, ok := ins.(*ssa.MapUpdate)
+			if !ok || mu.Map != m {
+				continue
+			}
+			k, ok := mu.Key.(*ssa.Const)
+			if !ok || k.Value == nil {
+				return nil, nil
+			}
+			val := mu.Value
+			for {
+				if ct, ok := val.(*ssa.ChangeType); ok {
+					val = ct.X
+					continue
+				}
+				break
+			}
+			var fn *ssa.Function
+			switch y := val.(type) {
+			case *ssa.Function:
+				fn = y
+			case *ssa.MakeClosure:
+				fn, _ = y.Fn.(*ssa.Function)
+			}
+			if fn == nil {
+				return nil, nil
+			}
+			entries[fn] = append(entries[fn], k.Value.ExactString())
+		}
+	}
+	if len(entries) == 0 {
+		return nil, nil
+	}
+	cx.tables[ci] = &tableInfo{lk.Index, entries}
+	return lk.Index, entries
+}
+
+type tableInfo struct {
+	key     ssa.Value
+	entries map[*ssa.Function][]string
+}
+
+// assumptionsBelow: the dispatch assumptions of the frames chain[i:] whose key is a
+// value of function fn (the common frame's function). ok is false when two of them
+// contradict each other.
+func assumptionsBelow(fn *ssa.Function, chains ...[]*Frame) (map[ssa.Value]string, bool) {
+	out := map[ssa.Value]string{}
+	for _, c := range chains {
+		for _, f := range c {
+			if f.Assume == nil {
+				continue
+			}
+			if in, ok := f.Assume.key.(ssa.Instruction); ok && in.Parent() != fn {
+				continue
+			}
+			if p, ok := f.Assume.key.(*ssa.Parameter); ok && p.Parent() != fn {
+				continue
+			}
+			if old, dup := out[f.Assume.key]; dup && old != f.Assume.val {
+				return nil, false
+			}
+			out[f.Assume.key] = f.Assume.val
+		}
+	}
+	return out, true
+}
+
+// withAssumptions runs f with the branch edges that contradict `key == const`
+// assumptions pruned from the must-pass searches.
+func withAssumptions(as map[ssa.Value]string, f func() bool) bool {
+	if len(as) == 0 {
+		return f()
+	}
+	old := edgeFeasible
+	edgeFeasible = func(b *ssa.BasicBlock, succ int) bool {
+		ifi, ok := b.Instrs[len(b.Instrs)-1].(*ssa.If)
+		if !ok {
+			return true
+		}
+		c, neg := ifi.Cond, false
+		for {
+			if u, isU := c.(*ssa.UnOp); isU && u.Op == token.NOT {
+				c, neg = u.X, !neg
+				continue
+			}
+			break
+		}
+		bo, ok := c.(*ssa.BinOp)
+		if !ok || (bo.Op != token.EQL && bo.Op != token.NEQ) {
+			return true
+		}
+		x, y := bo.X, bo.Y
+		if _, isC := x.(*ssa.Const); isC {
+			x, y = y, x
+		}
+		for {
+			switch z := x.(type) {
+			case *ssa.Convert:
+				x = z.X
+				continue
+			case *ssa.ChangeType:
+				x = z.X
+				continue
+			}
+			break
+		}
+		k, isC := y.(*ssa.Const)
+		val, known := as[x]
+		if !isC || k.Value == nil || !known {
+			return true
+		}
+		eq := k.Value.ExactString() == val // value of (x == const) under the assumption
+		cond := eq
+		if bo.Op == token.NEQ {
+			cond = !cond
+		}
+		if neg {
+			cond = !cond
+		}
+		// successor 0 is taken when the condition is true
+		return (succ == 0) == cond
+	}
+	defer func() { edgeFeasible = old }()
+	return f()
+}
+
+// constTable: the (key, value) pairs of a package-level map that is filled once in
+// the package initializer and written nowhere else. ok is false otherwise.
+type tableEntry struct{ k, v ssa.Value }
+
+func (cx *Ctx) constTable(g *ssa.Global) ([]tableEntry, bool) {
+	if cx.constTables == nil {
+		cx.constTables = map[*ssa.Global]*[]tableEntry{}
+	}
+	if t, ok := cx.constTables[g]; ok {
+		if t == nil {
+			return nil, false
+		}
+		return *t, true
+	}
+	cx.constTables[g] = nil
+	if g.Pkg == nil {
+		return nil, false
+	}
+	if _, isMap := g.Type().(*types.Pointer).Elem().Underlying().(*types.Map); !isMap {
+		return nil, false
+	}
+	initFn := g.Pkg.Func("init")
+	if initFn == nil || initFn.Blocks == nil {
+		return nil, false
+	}
+	var m ssa.Value
+	nStores := 0
+	for _, b := range initFn.Blocks {
+		for _, ins := range b.Instrs {
+			if st, ok := ins.(*ssa.Store); ok && st.Addr == g {
+				m = st.Val
+				nStores++
+			}
+		}
+	}
+	if nStores != 1 || m == nil {
+		return nil, false
+	}
+	for _, mem := range g.Pkg.Members {
+		f, ok := mem.(*ssa.Function)
+		if !ok {
+			continue
+		}
+		var fns []*ssa.Function
+		fns = append(fns, f)
+		fns = append(fns, f.AnonFuncs...)
+		for _, fn := range fns {
+			if fn == initFn || fn.Blocks == nil {
+				continue
+			}
+			for _, b := range fn.Blocks {
+				for _, ins := range b.Instrs {
+					switch y := ins.(type) {
+					case *ssa.Store:
+						if y.Addr == g {
+							return nil, false
+						}
+					case *ssa.MapUpdate:
+						if l, ok := y.Map.(*ssa.UnOp); ok && l.X == g {
+							return nil, false
+						}
+					}
+				}
+			}
+		}
+	}
+	// methods of the package's types may write it too
+	for _, f := range cx.P.AllFuncs {
+		if f.Pkg != g.Pkg || f.Blocks == nil || f == initFn {
+			continue
+		}
+		for _, b := range f.Blocks {
+			for _, ins := range b.Instrs {
+				if mu, ok := ins.(*ssa.MapUpdate); ok {
+					if l, ok := mu.Map.(*ssa.UnOp); ok && l.X == g {
+						return nil, false
+					}
+				}
+				if st, ok := ins.(*ssa.Store); ok && st.Addr == g {
+					return nil, false
+				}
+			}
+		}
+	}
+	var out []tableEntry
+	for _, b := range initFn.Blocks {
+		for _, ins := range b.Instrs {
+			mu, ok := ins.(*ssa.MapUpdate)
+			if !ok || mu.Map != m {
+				continue
+			}
+			out = append(out, tableEntry{mu.Key, mu.Value})
+		}
+	}
+	if len(out) == 0 {
+		return nil, false
+	}
+	cx.constTables[g] = &out
+	return out, true
 }
